@@ -35,8 +35,15 @@ func PackSize(format string) (uint, error) {
 			_ = s.align(0) && s.inc(1)
 		case 'X':
 			s.alignOnly = true
-		case 's', 'z':
-			s.err = errVariableLength
+		case 's':
+			// After "X" the option only gives its alignment and has no size
+			if s.smallOptSize(8) && s.align(s.optSize) {
+				s.err = errVariableLength
+			}
+		case 'z':
+			if s.align(0) {
+				s.err = errVariableLength
+			}
 		default:
 			s.err = errBadFormatString(c)
 		}
